@@ -16,7 +16,8 @@ ID = "C16"
 LEVEL = "exploration"
 TECHNIQUE = "bounded-exhaustive enumeration of base networks x all position permutations x vertex labelling states; differential between LinearLabelMapper and LabelMapper"
 LEVEL_TEXT = (
-    "Chain (1-3 positions), merge A(1)+B(2)->C(3) and split C(3)->A(1)+B(2) networks at an exactly known metabolic "
+    "Chain (1-3 positions, balanced and with atoms lost to / gained from the outside), merge A(1)+B(2)->C(3), split "
+    "C(3)->A(1)+B(2), the same with species written in non-alphabetical order, and dimer 2B<->C networks at an exactly known metabolic "
     "steady state x every permutation of the mapped reaction's positions (incl. the non-involutive 3-cycles) x every "
     "vertex labelling state (each compound entirely in one isotopomer): the right-hand side of the linear label model "
     "must equal the rate of change of each position's enrichment in the isotopomer model built from the same maps "
@@ -126,8 +127,12 @@ def generate(tier):
     # a species with coefficient 2: its molecules' positions must be paired molecule by molecule
     shapes += [("merge-rev", {"Q": 1, "B": 2, "M": 3}), ("split-rev", {"M": 3, "Z": 1, "C": 2})]
     shapes += [("dimer-split", {"A": 2, "B": 1}), ("dimer-merge", {"B": 1, "C": 2}), ("dimer-split", {"A": 4, "B": 2}), ("dimer-merge", {"B": 2, "C": 4})]
+    # atoms lost to / gained from the outside: A(3)->B(2) drains one substrate position (the map's tail names it),
+    # A(2)->B(3) fills one product position from the external pool
+    shapes += [("chain", {"A": 3, "B": 2}), ("chain", {"A": 2, "B": 1}), ("chain", {"A": 2, "B": 3}), ("chain", {"A": 1, "B": 2})]
     if tier == "thorough":
-        shapes += [("chain", {"A": 4, "B": 4}), ("merge", {"A": 2, "B": 2, "C": 4}), ("split", {"A": 2, "B": 2, "C": 4}), ("merge", {"A": 2, "B": 1, "C": 3})]
+        shapes += [("chain", {"A": 4, "B": 2}), ("chain", {"A": 2, "B": 4}), ("chain", {"A": 4, "B": 3}),
+                   ("chain", {"A": 4, "B": 4}), ("merge", {"A": 2, "B": 2, "C": 4}), ("split", {"A": 2, "B": 2, "C": 4}), ("merge", {"A": 2, "B": 1, "C": 3})]
     for net, n in shapes:
         total = max(n.values())
         for perm in it.permutations(range(total)):
